@@ -44,6 +44,10 @@ Elem ==
     any_opt  |-> [kind |-> "extension", parent |-> "", pkg |-> "opts"],
     WithAny  |-> [kind |-> "message", parent |-> "", pkg |-> "pkg"] ]
 E == DOMAIN Elem
+\* the file that declares each element
+FileOf == [e \in E |-> IF Elem[e].pkg = "opts" THEN "opts.proto"
+                       ELSE IF e = "Lonely" THEN "lonely.proto"
+                       ELSE IF e \in {"WithOpt2", "UsesKind", "Payload", "WithAny"} THEN "b.proto" ELSE "a.proto"]
 Packages == {"pkg", "opts"}
 \* fields of messages: <<field name, referenced element or "">>
 Fields ==
@@ -118,6 +122,9 @@ Kept == Close(KeptStart)
 \* enclosing declarations survive as shells
 Shells == (UNION {Ancestors(e) : e \in Kept}) \ Kept
 Survive == Kept \cup Shells
+\* self-contained: a file that keeps an element must (still) import the files of what that element needs
+NeededImports == {<<FileOf[e], FileOf[n]>> : e \in Kept, n \in E} \cap
+                 UNION {{<<FileOf[e], FileOf[n]>> : n \in {x \in Needs(e) : FileOf[x] # FileOf[e]}} : e \in Kept}
 SurvivingFields(m) == IF m \in Kept THEN {f[1] : f \in {g \in Fields[m] : g[2] = "" \/ g[2] \notin X}} ELSE {}
 
 \* ------------------------------------------------------------------ laws of the intended semantics
@@ -133,5 +140,6 @@ EmitCase == Emit => PrintT(<<"CASE", ToJson([include |-> include, exclude |-> ex
     survive |-> IF Conflict THEN {} ELSE Survive,
     shells |-> IF Conflict THEN {} ELSE Shells,
     fields |-> IF Conflict THEN {} ELSE {[m |-> m, fields |-> SurvivingFields(m)] : m \in Kept \cap Messages},
+    imports |-> IF Conflict THEN {} ELSE {[from |-> p[1], to |-> p[2]] : p \in NeededImports},
     excluded |-> X])>>)
 =============================================================================
